@@ -14,6 +14,8 @@ structure St where
   /-- forged certificates (chunk id ↦ expiry in the signed reference) obtained from the validators -/
   forged : List (Nat × Nat) := []
   node : Node := Node.init
+  /-- storage of the peer node whose real `GetChunkHandler` answers `P` tokens -/
+  peer : Storage := Storage.empty
   blocks : List (Nat × Block) := [(0, genesis)]
 
 def St.cfg (s : St) : Cfg :=
@@ -50,7 +52,8 @@ def cert? (s : St) (w : String) : Option Cert :=
   | none => none
 
 def resp? (w : String) : Option Resp :=
-  if w == "E" then some .appErr else if w == "S" then some .sendFail else (nat? w).map .chunk
+  if w == "E" then some .appErr else if w == "S" then some .sendFail
+  else if w == "P" then some .peer else (nat? w).map .chunk
 
 def known (s : St) (i : Nat) : Bool := s.univ.any (fun e => e.1 == i)
 def blk? (s : St) (h : Nat) : Option Block := (s.blocks.find? (fun e => e.1 == h)).map (·.2)
@@ -69,6 +72,13 @@ def absLine (s : St) : String :=
   let ws := (prods.filter (fun p => st.sizes p != 0)).map (fun p => toString p ++ ":" ++ toString (st.sizes p))
   "p=" ++ joinNats (ids.filter (hasPending st)) ++ " a=" ++ joinNats (ids.filter (fun i => st.dbAccepted.contains i))
     ++ " min=" ++ toString st.min ++ " w=" ++ (if ws.isEmpty then "-" else ",".intercalate ws)
+
+/-- the peer's real `GetChunkHandler`: `GetChunkBytes(request.Expiry, request.ChunkId)` on the peer's
+storage, the request carrying the expiry of the certificate being fetched -/
+def peerServesOf (cfg : Cfg) (peer : Storage) (b : Block) (id : Nat) : Bool :=
+  match b.certs.find? (fun c => c.chunkID == id) with
+  | some c => getBytes cfg peer c.expiry id
+  | none => false
 
 def setStorage (s : St) (st : Storage) : St := { s with node := { s.node with st := st } }
 
@@ -102,9 +112,9 @@ def step (s : St) (ws : List String) : St × String :=
   | ["cfg", w, l, k] =>
     match nat? w, nat? l, nat? k with
     | some w, some l, some k =>
-      ({ s with window := w, limit := l, maxSkew := k, node := Node.init, blocks := [(0, genesis)] }, "ok")
+      ({ s with window := w, limit := l, maxSkew := k, node := Node.init, peer := Storage.empty, blocks := [(0, genesis)] }, "ok")
     | _, _, _ => bad
-  | ["reset"] => ({ s with node := Node.init, blocks := [(0, genesis)] }, "ok")
+  | ["reset"] => ({ s with node := Node.init, peer := Storage.empty, blocks := [(0, genesis)] }, "ok")
   | ["addlocal", i, c] =>
     match nat? i with
     | some i =>
@@ -112,6 +122,17 @@ def step (s : St) (ws : List String) : St × String :=
       if c == "c" then (setStorage s (putVerified s.cfg s.node.st i (some ⟨i, (s.cfg.U i).expiry, true⟩)), "ok")
       else if c == "n" then (setStorage s (putVerified s.cfg s.node.st i none), "ok") else bad
     | none => bad
+  | ["paddlocal", i] =>
+    match nat? i with
+    | some i => if !known s i then bad else ({ s with peer := putVerified s.cfg s.peer i none }, "ok")
+    | none => bad
+  | "psetmin" :: m :: ids =>
+    match nat? m, allSome (ids.map nat?) with
+    | some m, some ids =>
+      if !(ids.all (known s)) then bad else
+      let r := setMin s.cfg s.peer m ids
+      ({ s with peer := r.1 }, if r.2 then "ok" else "err")
+    | _, _ => bad
   | ["vremote", i] =>
     match nat? i with
     | some i =>
@@ -183,7 +204,9 @@ def step (s : St) (ws : List String) : St × String :=
     | some h, some script =>
       match blk? s h with
       | some b =>
-        let r := accept s.cfg s.node b script
+        let base := s.cfg
+        let cfg : Cfg := { base with peerServes := peerServesOf base s.peer b }
+        let r := accept cfg s.node b script
         ({ s with node := r.1 }, match r.2 with
           | .ok chunks => "ok " ++ joinNats chunks | .fetch => "fetch" | .prune => "prune")
       | none => bad
